@@ -72,6 +72,11 @@ func (srv *Server) addNetworkDelay(sender hotstuff.ID) {
 	if !srv.lm.Enabled() {
 		return
 	}
+	// the sender's ID is what the peer (or, with Kauri, the message) says it is: the latency matrix
+	// only covers the configured replicas and panics for anybody else.
+	if _, ok := srv.config.ReplicaInfo(sender); !ok {
+		return
+	}
 	delay := srv.lm.Latency(srv.id, sender)
 	srv.logger.Debugf("Delay between %s and %s: %v\n", srv.lm.Location(srv.id), srv.lm.Location(sender), delay)
 	srv.lm.Delay(srv.id, sender)
